@@ -157,6 +157,22 @@ var c01Ticks int64
 
 func (c *c01Case) touch() { c.lastEv = time.Now(); c.lastTick = atomic.LoadInt64(&c01Ticks) }
 
+// c01Wait waits until ch is closed/readable or ms milliseconds of PROBE time have passed
+// (a starved process or a paused VM does not consume the budget); true = ch fired.
+func c01Wait(ch <-chan struct{}, ms int64) bool {
+	start := atomic.LoadInt64(&c01Ticks)
+	for {
+		select {
+		case <-ch:
+			return true
+		case <-time.After(5 * time.Millisecond):
+			if atomic.LoadInt64(&c01Ticks)-start > ms {
+				return false
+			}
+		}
+	}
+}
+
 func (c *c01Case) note(s string) {
 	c.mu.Lock()
 	c.Notes = append(c.Notes, s)
@@ -441,10 +457,8 @@ func c01Run(rt *hookrt.Runtime, c *c01Case, stall time.Duration) {
 		go func() { runErrs <- r.Run(ctx) }()
 	}
 	for _, r := range routers {
-		select {
-		case <-r.Running():
-		case <-time.After(10 * time.Second):
-			c.Notes = append(c.Notes, "router did not start")
+		if !c01Wait(r.Running(), 20000) {
+			c.note("router did not start")
 		}
 	}
 	// persistent + early: subscriptions replay in the background; nothing to wait for.
@@ -503,9 +517,7 @@ func c01Run(rt *hookrt.Runtime, c *c01Case, stall time.Duration) {
 		defer close(tdDone)
 		c.teardown(routers, cancel, runErrs, sinkCancel, pss, sinkDone)
 	}()
-	select {
-	case <-tdDone:
-	case <-time.After(30 * time.Second):
+	if !c01Wait(tdDone, 30000) {
 		c.mu.Lock()
 		c.Notes = append(c.Notes, "teardown hung")
 		buf := make([]byte, 1<<20)
